@@ -1,4 +1,4 @@
-\* 3 interface names, 8 flag combinations, every insertion index; interface 2 is deferred until cycle 1
+\* 3 interface names, 8 flag combinations, every insertion index, every flag setter; interface 2 is deferred until cycle 1
 CONSTANTS NI = 3  DCyc = 1  NCycQ = 3  MaxLevel = 4
 CONSTANT Named <- McNamed
 CONSTANT FlagChoices <- McFlags8
@@ -10,7 +10,7 @@ VIEW View
 ACTION_CONSTRAINT Emit
 INVARIANT EmitState
 INVARIANT NoDuplicateNames
-INVARIANT DetachedHaveNoFlags
 INVARIANT DispatchLaw
 PROPERTY RefusalsChangeNothing
+PROPERTY AddIsOneDirectional
 CHECK_DEADLOCK FALSE
